@@ -45,8 +45,9 @@ def gen(ctx, path):
         for p in pts:
             c.add(op="xbounds", node=node, **{"in": p})
     # colours with integer components (bounds 0 .. MAX of the type: every value is inside, clamping is the identity)
-    for node, mx, n in (("srgb_u8", 255, 3), ("srgb_u16", 65535, 3), ("linsrgb_u32", 2 ** 32 - 1, 3), ("srgbluma_u8", 255, 1), ("linluma_u16", 65535, 1)):
-        vals = [0, 1, mx // 2, mx // 2 + 1, mx - 1, mx]
+    for node, mx, n in (("srgb_u8", 255, 3), ("srgb_u16", 65535, 3), ("linsrgb_u32", 2 ** 32 - 1, 3), ("srgbluma_u8", 255, 1), ("linluma_u16", 65535, 1),
+                         ("srgba_u8", 255, 4), ("srgba_u16", 65535, 4), ("srgblumaa_u8", 255, 2)):     # integer alpha as well
+        vals = [0, 1, mx // 2, mx // 2 + 1, mx - 1, mx] if n < 4 else [0, 2, mx // 2 + 1, mx]
         for p in itertools.product(vals, repeat=n):
             c.add(op="ibounds", node=node, iin=list(p))
     # the three conversion APIs on sources whose results leave the target's range
